@@ -84,7 +84,11 @@ func defView(x interface{}, typeView string) interface{} {
 	if !ok {
 		return map[string]interface{}{"k": "other", "v": fmt.Sprintf("defaultValue is no String: %T:%v", x, x)}
 	}
-	base := strings.TrimSuffix(typeView[:strings.Index(typeView, ":")], "!")
+	base := typeView // (a view that has no ":" is that of a corrupt answer: it shows as a difference elsewhere)
+	if i := strings.Index(typeView, ":"); i >= 0 {
+		base = typeView[:i]
+	}
+	base = strings.TrimSuffix(base, "!")
 	if base == "String" || base == "ID" {
 		return gq.Str(text)
 	}
